@@ -302,6 +302,24 @@ where
         // A damaged entry can name a cluster that is not on the volume
         match &data.open_volumes[volume_idx].volume_type {
             VolumeType::Fat(fat) => {
+                if dir_entry.cluster == ClusterId::ROOT_DIR
+                    && fat.get_fat_type() == fat::FatType::Fat32
+                {
+                    // The root marker stands for a stored start cluster of 0.
+                    // The two cluster words of a FAT32 entry can also spell
+                    // the marker's own value, which is not a cluster at all.
+                    let block = data
+                        .block_cache
+                        .read(dir_entry.entry_block)
+                        .map_err(Error::DeviceError)?;
+                    let start = dir_entry.entry_offset as usize;
+                    let stored =
+                        fat::OnDiskDirEntry::new(&block[start..start + fat::OnDiskDirEntry::LEN])
+                            .first_cluster_fat32();
+                    if stored == ClusterId::ROOT_DIR {
+                        return Err(Error::BadCluster);
+                    }
+                }
                 if dir_entry.cluster != ClusterId::ROOT_DIR
                     && (dir_entry.cluster.0 < 2 || dir_entry.cluster.0 - 2 >= fat.cluster_count)
                 {
